@@ -1,12 +1,13 @@
 (* C02  Counts never go negative and never exceed what the cell holds.
    Statements only.  Inv0 (CellProps.v) contains 0 <= S, every E_k, I, R, every
    M_k, died, and the two total identities; J (RunProps.v) asserts it for every
-   cell of every host.  PARTIAL: the dispersers / established / soil rasters of
-   the pest and soil pools are not part of the proved invariant (checked by the
-   monitor and by the correspondence only).  Tie: bin/check C02. *)
+   cell of every host; PP (PestProps.v / PestRunProps.v) asserts non-negativity of
+   the dispersers and established-dispersers rasters of the pest pool and of every
+   soil cohort, and is carried through every action of every step of every run as
+   well (theorems C02_pest_and_soil_...).  Tie: bin/check C02. *)
 From Coq Require Import ZArith QArith List.
 From Pops Require Import Err Rounding RoundingProps CellDefs CellProps LandDefs MonadProps LandProps ShapeProps LandProps2
-     ModelDefs ModelProps RunProps.
+     ModelDefs ModelProps RunProps PestProps PestRunProps.
 Import ListNotations.
 Local Open Scope Z_scope.
 
@@ -23,6 +24,37 @@ Theorem C02_every_prefix_of_every_run : forall lv q ne nm m inp weather,
   forall tapes step w w', J lv q ne nm w -> run_many m inp weather tapes step w = Ok w' -> J lv q ne nm w'.
 Proof. exact run_many_J. Qed.
 Print Assumptions C02_every_prefix_of_every_run.
+
+(* dispersers, established dispersers and soil cohorts: non-negative after every
+   individual action of every step, for both entry points, and over whole runs *)
+Theorem C02_pest_and_soil_after_each_action : forall m inp step w t,
+  (0 <= g_soil_pct (m_g m) <= 1)%Q -> PP w ->
+  Forall (fun x => PP (snd x)) (snd (run_step m inp step w t)) /\
+  (forall tr w' t', fst (run_step m inp step w t) = Ok (tr, w', t') -> PP w').
+Proof. exact run_step_PP. Qed.
+Print Assumptions C02_pest_and_soil_after_each_action.
+
+Theorem C02_pest_and_soil_raster_entry : forall m inp step w t,
+  (0 <= g_soil_pct (m_g m) <= 1)%Q -> PP w ->
+  Forall (fun x => PP (snd x)) (snd (run_step_rasters m inp step w t)) /\
+  (forall tr w' t', fst (run_step_rasters m inp step w t) = Ok (tr, w', t') -> PP w').
+Proof. exact run_step_rasters_PP. Qed.
+Print Assumptions C02_pest_and_soil_raster_entry.
+
+Theorem C02_pest_and_soil_every_run : forall m inp weather,
+  (0 <= g_soil_pct (m_g m) <= 1)%Q ->
+  forall tapes step w w', PP w -> run_many m inp weather tapes step w = Ok w' -> PP w'.
+Proof. exact run_many_PP. Qed.
+Print Assumptions C02_pest_and_soil_every_run.
+
+(* host counts and pest/soil counts together, after each action of a step *)
+Theorem C02_all_counts_after_each_action : forall lv q ne nm m inp step w t,
+  cfg_ok (m_g m) -> (0 <= g_soil_pct (m_g m) <= 1)%Q -> inputs_ok inp -> level_ok lv m inp ->
+  J lv q ne nm w -> PP w ->
+  Forall (fun x => J lv q ne nm (snd x) /\ PP (snd x)) (snd (run_step m inp step w t)) /\
+  (forall tr w' t', fst (run_step m inp step w t) = Ok (tr, w', t') -> J lv q ne nm w' /\ PP w').
+Proof. exact run_step_J_PP. Qed.
+Print Assumptions C02_all_counts_after_each_action.
 
 (* what J gives for each cell: every count of the cell is non-negative ... *)
 Theorem C02_cell_counts : forall P w k i h c, winv P w -> nth_error (w_hosts w) k = Some h ->
@@ -66,3 +98,6 @@ Print Assumptions C02_rounding_bounds.
 Example C02_nonvacuous : J Eq 17 2 2 demo_world.
 Proof. exact demo_world_J. Qed.
 Print Assumptions C02_nonvacuous.
+Example C02_nonvacuous_pest : PP demo_world /\ PP demo_soil_world.
+Proof. exact (conj demo_world_PP demo_soil_world_PP). Qed.
+Print Assumptions C02_nonvacuous_pest.
